@@ -15,6 +15,8 @@
 (*   read d v pm     ReadValue returned v ("T" | "F" | "A" abort | "E" error) after pm       *)
 (*                   thousandths of a polling interval; d was parked, no timer could fire    *)
 (*   dread d v pm phase   direct mode (no relay): a read while "run"ning / after it "ended"  *)
+(*   closerace crashed   Monitor.Close was called while connections kept arriving (child     *)
+(*                   process); crashed: the process died inside the Monitor                   *)
 (*   endcase why     "complete" | "disturbed" | "stuck" | "harness"                          *)
 (* An iteration of d has ENDED when the next one is seen to begin ("dial", or "ask" on an     *)
 (* established connection): mainLoop is sequential. That is the only inference made.         *)
@@ -124,13 +126,19 @@ ODRead == /\ ~skip /\ Ev("dread")
              /\ Timing(v, T.pm)
           /\ UNCHANGED <<st, pin, oks, lastv, skip>>
 
-ONext == OCase \/ OSkip \/ OEnd \/ OEnv \/ ODet \/ ORead \/ ODRead
+\* monitor shutdown must not take the process (and the archetypes it runs) down
+OCloseRace == /\ ~skip /\ Ev("closerace")
+              /\ viol' = IF viol # "" THEN viol ELSE IF T.crashed THEN "MonitorCrash" ELSE ""
+              /\ UNCHANGED <<st, pin, oks, lastv, skip, sawT, sawB, nst, minst, nab, minab>>
+
+ONext == OCase \/ OSkip \/ OEnd \/ OEnv \/ ODet \/ ORead \/ ODRead \/ OCloseRace
 
 Completeness == viol # "Completeness"
 Accuracy == viol # "Accuracy"
 Initialised == viol # "Initialised"
 ReadPure == viol # "ReadPure"
 ReadError == viol # "ReadError"
+MonitorCrash == viol # "MonitorCrash"
 \* "never delays a critical section by more than one polling interval": the fastest of many
 \* steady-state reads takes less than half an interval (so ReadValue does not sleep there), the
 \* fastest of many uninitialised reads less than two (load only ever makes a read slower)
